@@ -69,6 +69,16 @@ def _store(e, path):
     return e[0] == 'store' and e[1] == path
 
 
+def _kw_sorted(text):
+    """A rendered call with its keyword arguments in name order (keyword order is not part of the value)."""
+    c = split_args(text)
+    if c is None:
+        return text
+    pos = [a for a in c[1] if not taint.re.match(r'^[A-Za-z_][A-Za-z0-9_]*=', a)]
+    kw = sorted(a for a in c[1] if taint.re.match(r'^[A-Za-z_][A-Za-z0-9_]*=', a))
+    return '%s(%s)' % (c[0], ', '.join(pos + kw))
+
+
 def decrypt_wiring(rep, prog):
     """Both decrypt operations hand the container exactly what decrypt_sk recovered: (key, cipher) = (R[1], R[0]) of ONE decrypt_sk result."""
     for cls, roles, subject in (('PGPMessage', ('self', 'passphrase'), 'self'), ('PGPKey', ('self', 'message'), 'message')):
@@ -508,7 +518,7 @@ def ecdh(rep, prog):
                     alt = coords
                 ok = len(pst) == 1 and pst[0] is not None and pst[0][0] == 'ECPoint.from_values' and len(pst[0][1]) == (3 if x25519 else 4) and \
                     pst[0][1][0] == 'pk.keymaterial.oid.key_size' and pst[0][1][1] == ('ECPointFormat.Native' if x25519 else 'ECPointFormat.Standard') and \
-                    pst[0][1][2:] in (coords, alt)
+                    [_kw_sorted(x) for x in pst[0][1][2:]] in ([_kw_sorted(x) for x in coords], alt)
                 ret = render(s.ret) if s.ret is not None else None
                 onret = sorted(p for p, v, l, _ in s.stores if p.endswith('.p') or p.endswith('.c')) == sorted(['%s.c' % ret, '%s.p' % ret])
                 rep.check(onret, 'C03.5', 'ECDHCipherText.encrypt', 'C and the point are set on the object returned (%s)' % ret,
